@@ -921,10 +921,13 @@ class DFA:
         # transitions going into the sub_states, instead of on transitions coming out of them that we generate. This adds more opportunities
         # for "unable to schedule strict"-type errors, but avoids missing actions in these cases.
         if chain_actions and chained_dfa.starting_state in chained_dfa.accepting_states:
-            self.chain_actions_into(chain_actions, [x for x in sub_states if x is not self.starting_state])
-            if self.starting_state in sub_states:
-                # (nothing points at the starting state yet: see chain_actions_at_end)
-                sub_states = [x for x in sub_states if x is not self.starting_state] + [self.append_action_step(chain_actions, [self.starting_state])]
+            # (nothing points at the starting state yet: see chain_actions_at_end; and the target of an action -- the handler an append that does not
+            # fit leaves for -- is entered without taking a transition at all)
+            jumped_to = set(target for transition in self.all_transitions() for action in transition.actions for sub in action.all_subactions() for target in sub.get_target_override_targets())
+            entered_otherwise = [x for x in sub_states if x is self.starting_state or x in jumped_to]
+            self.chain_actions_into(chain_actions, [x for x in sub_states if x not in entered_otherwise])
+            if entered_otherwise:
+                sub_states = [x for x in sub_states if x not in entered_otherwise] + [self.append_action_step(chain_actions, entered_otherwise)]
             chain_actions = [] # Since the actions are already handled, don't try to add them to new transitions.
 
         # Check for ambiguity: if any transitions added to a sub_state try to redirect a valid character a different valid
